@@ -35,7 +35,7 @@ const c04delta = 40 * time.Millisecond // base one-way latency; slow senders use
 type c04crash struct {
 	Member int `json:"member"`
 	At     int `json:"at_broadcast"` // 0 = silent from the start; k>0 = stops during its k-th broadcast
-	Reach  int `json:"reach"`        // that broadcast still reaches: 0 nobody, 1 the first half of the others, 2 all but one
+	Reach  int `json:"reach"`        // that broadcast still reaches: 0 nobody, 1 the first half of the others, 2 all but one, 3 only the last of the others, 4 only the first
 }
 
 type c04script struct {
@@ -280,6 +280,10 @@ func (b c04bcast) Broadcast(_ context.Context, pb *pbv1.QBFTConsensusMsg) error 
 				targets = nil
 			case 1:
 				targets = targets[:len(targets)/2]
+			case 3:
+				targets = targets[len(targets)-1:]
+			case 4:
+				targets = targets[:1]
 			default:
 				targets = targets[:len(targets)-1]
 			}
@@ -774,6 +778,11 @@ func TestVerifC04(t *testing.T) {
 	if !c04prodFamily(r, th, ns, judge) {
 		return
 	}
+	if !th {
+		// quick tier: n=7 (f=2, the smallest size at which TWO members can be faulty at once) with the default timer and the
+		// attester duty only, every leader rotation, main family only
+		ns = append(ns, 7)
+	}
 	timers := []string{"inc", "eager_dlinear", "linear"}
 	sampled := 0
 	for _, n := range ns {
@@ -781,6 +790,9 @@ func TestVerifC04(t *testing.T) {
 		for _, tm := range timers {
 			for _, dt := range []int{int(core.DutyAttester), int(core.DutyProposer)} {
 				if dt == int(core.DutyProposer) && !th && tm != "eager_dlinear" {
+					continue
+				}
+				if n == 7 && !th && (tm != "eager_dlinear" || dt != int(core.DutyAttester)) {
 					continue
 				}
 				for slot := uint64(0); slot < uint64(n); slot++ { // every leader rotation
@@ -831,6 +843,12 @@ func TestVerifC04(t *testing.T) {
 						kinds = append(kinds, fault{kind: "late", q: q}, fault{kind: "lateinput", q: q})
 					}
 					others := []fault{{kind: "crash", at: 0}, {kind: "crash", at: 2, reach: 1}, {kind: "late", q: 3}}
+					if f >= 2 {
+						// with two faulty members: the second one also stops during its FIRST broadcast (a leader's PRE-PREPARE,
+						// anybody else's PREPARE), reaching half of the others / all but one
+						others = append(others, fault{kind: "crash", at: 1, reach: 1}, fault{kind: "crash", at: 1, reach: 2},
+							fault{kind: "crash", at: 1, reach: 3}, fault{kind: "crash", at: 1, reach: 4}) // ... or exactly one of them
+					}
 					apply := func(sc *c04script, m int, f fault) {
 						switch f.kind {
 						case "crash":
